@@ -238,6 +238,9 @@ func (s *crSess) onEvent(ev badger.VEvent) {
 	switch ev.Kind {
 	case badger.VevSyncDir:
 		e.tok = "syncdir"
+		if ev.A == 1 {
+			e.actor = 'F' // handleMemTableFlush: between the table's msync and its MANIFEST record
+		}
 	case badger.VevMkdir, badger.VevLock, badger.VevRenameFrom:
 		e.tok = ""
 		_, e.file = crFileTok(ev.Path)
